@@ -12,6 +12,7 @@
   names in different namespaces.
 -/
 import EnrVerif.Proofs.AdmissibleLemmas
+import EnrVerif.Proofs.Examples
 
 namespace EnrVerif
 
@@ -30,6 +31,50 @@ theorem C08_admissible_sound_log (d : Driver.DS) (r r' : Record) (op : Op d.S) (
     (Driver.admissibleErrs d r op pk (logOracle log)
       (!log.isEmpty) (log.any (·.2.isNone))).contains (Driver.enrErrStr e) = true :=
   admissible_sound_log d r r' op pk log e hlog h
+
+/-! ### non-vacuity: the theorems on concrete failing calls (toy scheme `tinyS` wrapped as a driver
+scheme; `r0`, `rMax`, `pk0` from `Proofs/ToyScheme.lean`) -/
+
+section NonVacuity
+set_option maxRecDepth 100000
+
+/-- a failing signer on an otherwise acceptable update: the hypothesis `step … = (err e, r')` holds,
+    and the admitted kinds are exactly `["SigningError"]` -/
+example :
+    let d : Driver.DS := ⟨"tiny", tinyS, Subtype.val,
+      fun b => if h : b.length ≤ 8 then ⟨b, h⟩ else ⟨[], by decide⟩,
+      inferInstanceAs (DecidableEq { b : Bytes // b.length ≤ 8 })⟩
+    step tinyS r0 (.setUdp4 30303) pk0 none = (.err .signingError, r0) ∧
+    "SigningError" ∈ Driver.admissibleErrs d r0 (.setUdp4 30303) pk0 none
+      (signRequest tinyS r0 (.setUdp4 30303) pk0).isSome
+      ((signRequest tinyS r0 (.setUdp4 30303) pk0).isSome && (none : Option Bytes).isNone) := by
+  intro d
+  have h : step d.S r0 (.setUdp4 30303) pk0 none = (.err .signingError, r0) := by decide +kernel
+  exact ⟨h, C08_admissible_sound d r0 r0 (.setUdp4 30303) pk0 none .signingError h⟩
+
+/-- an ill-typed value at the maximal sequence number: two causes apply, both kinds are admitted,
+    the model's answer (`InvalidRlpData`) is one of them; in the form with the signer's log (empty:
+    the signer is not asked) -/
+example :
+    let d : Driver.DS := ⟨"tiny", tinyS, Subtype.val,
+      fun b => if h : b.length ≤ 8 then ⟨b, h⟩ else ⟨[], by decide⟩,
+      inferInstanceAs (DecidableEq { b : Bytes // b.length ≤ 8 })⟩
+    step tinyS rMax (.insertRaw kTcp (encBytes [1, 2, 3])) pk0 (logOracle []) =
+      (.err (.invalidRlp .overflow), rMax) ∧
+    Driver.admissibleErrs d rMax (.insertRaw kTcp (encBytes [1, 2, 3])) pk0 (logOracle [])
+      (!([] : List (Bytes × Option Bytes)).isEmpty) (([] : List (Bytes × Option Bytes)).any (·.2.isNone)) =
+        ["InvalidRlpData", "SequenceNumberTooHigh"] ∧
+    (Driver.admissibleErrs d rMax (.insertRaw kTcp (encBytes [1, 2, 3])) pk0 (logOracle [])
+      (!([] : List (Bytes × Option Bytes)).isEmpty)
+      (([] : List (Bytes × Option Bytes)).any (·.2.isNone))).contains "InvalidRlpData" = true := by
+  intro d
+  have h : step d.S rMax (.insertRaw kTcp (encBytes [1, 2, 3])) pk0 (logOracle []) =
+      (.err (.invalidRlp .overflow), rMax) := by decide +kernel
+  exact ⟨h, by decide +kernel,
+    C08_admissible_sound_log d rMax rMax (.insertRaw kTcp (encBytes [1, 2, 3])) pk0 [] _
+      (by decide +kernel) h⟩
+
+end NonVacuity
 
 #print axioms C08_admissible_sound
 #print axioms C08_admissible_sound_log
